@@ -281,7 +281,7 @@ example : FreshGen sampleMk ([1] :: (some [2]).toList) :=
   ⟨fun a b h => by simpa [sampleMk] using h, fun k => by simp [sampleMk]; omega⟩
 
 example : SysValid sampleMk (ConnSys.init 4 [1] (some [2]) [9]) sampleOps := by
-  simp [sampleOps, SysValid, OpValid]
+  simp [sampleOps, Proofs.CloseRouting.SysValid, OpValid]
 
 /-- before the close: six connection IDs routed to the connection, two reset tokens registered -/
 example :
